@@ -217,6 +217,11 @@ func (fr *Frame) applyContracts(st *State, pc Term, parts []conPart, resT types.
 		return v
 	}
 	olds := make([]map[string]Val, len(parts))
+	for _, part := range parts {
+		if part.con.Trusted {
+			e.trusted[part.key] = true
+		}
+	}
 	for pi, part := range parts {
 		old := map[string]Val{}
 		for i, n := range part.names {
